@@ -12,6 +12,7 @@ import os
 
 import numpy as np
 
+from vf import bigcases
 from vf import core
 from vf import callforms
 from vf import errorpaths
@@ -80,7 +81,9 @@ def case_levels(case):
     rng = core.case_rng(seed, "c10-source")
     q = rng.random((ny, nx))
     kw = dict(modes=(6, 4), halo=0.0, precision=pr, footprint=fp, analytic=an, meas_pt=(2 * dom[0] / nx, dom[1] / ny), srf_bg_conc=1.5)
-    tol = 1e-12 if pr == "double" else 1e-6
+    # "the k-th slice IS the array a single-level request returns": the arithmetic per level is the same whichever other levels
+    # are requested with it, and on the unchanged tree every one of the ~30 000 comparisons of both tiers is bit-identical
+    tol = 0.0
     cnt = [0]
 
     def S(levels):
@@ -253,3 +256,4 @@ def run(ctx):
     ctx.run_cases(case_cached, cache_cases(ctx.tier), sub="levels-through-cache")
     ctx.run_cases(case_drivers, [{"levels": lv, "footprint": fp, "late": late} for lv in ([1, 3], [4, 0, 2], [0]) for fp in (True, False) for late in (False, True) if not (late and lv == [0])], sub="levels-through-drivers", chunksize=1)
     ctx.cov["unsorted_selections_cases"] = int(sum(1 for r in res if r.get("obs", {}).get("unsorted")))
+    bigcases.run(ctx, "C10")
